@@ -39,62 +39,35 @@ def plan(tier, seed):
 
 
 def pep_bound(entry, kwargs):
-    """(value, decided, relative slack): Clarabel with status optimal (slack 1e-4), else SCS with status optimal (5e-3)."""
-    from pv import driver
+    """(value, decided, relative slack).  Clarabel with status optimal: slack 1e-4.  Any other status (optimal_inaccurate):
+    the value is used only if the certificate exposed by the library is itself valid (C01 oracle: identity closes, signs,
+    PSD residual - then the value IS an upper bound whatever the solver thinks of its own accuracy), with slack 1e-3.
+    (SCS as a second opinion was tried and withdrawn: it reports "optimal" with values off by orders of magnitude on
+    ill-conditioned settings - DESIGN Appendix B16.)"""
+    from pv import driver, oracles
     from pv.monitors import is_optimal_status
     from pv.ref import examples_table as ET
     bd = driver.boundary()
-    out = None
-    for solver, slack in (("CLARABEL", 1e-4), ("SCS", 5e-3)):
-        n0 = len(bd.records)
-        with contextlib.redirect_stdout(io.StringIO()), warnings.catch_warnings():
-            warnings.simplefilter("ignore")
-            out = ET.call(entry, kwargs, solver=solver, wrapper="cvxpy", verbose=-1)
-        statuses = [str(x["status"]).lower() for r in bd.records[n0:] for x in r["inner"]]
-        if bool(statuses) and all(is_optimal_status(s) for s in statuses):
-            return out[0], True, slack
+    n0 = len(bd.records)
+    with contextlib.redirect_stdout(io.StringIO()), warnings.catch_warnings():
+        warnings.simplefilter("ignore")
+        out = ET.call(entry, kwargs, solver="CLARABEL", wrapper="cvxpy", verbose=-1)
+    recs = bd.records[n0:]
+    statuses = [str(x["status"]).lower() for r in recs for x in r["inner"]]
+    if bool(statuses) and all(is_optimal_status(s) for s in statuses):
+        return out[0], True, 1e-4
+    if len(recs) == 1 and out[0] is not None and recs[0].get("ret") is not None and \
+            recs[0]["opts"].get("return_primal_or_dual", "dual") == "dual" and abs(recs[0]["ret"] - out[0]) < 1e-12:
+        try:
+            findings, _info = oracles.certificate_check(recs[0], recs[0]["ret"], "dual")
+        except Exception:
+            return out[0], False, None
+        if not findings:
+            return out[0], True, 1e-3
     return out[0], False, None
 
 
-def generic_draws(e, seed, n):
-    """n admissible parameter settings; when few are drawn (quick tier) they are picked among 4n candidates so that
-    they are as generic as possible (no parameter equal to 0 or 1 where avoidable, one setting with a constant above
-    1 and one with a constant below 1): the docstring defaults (L = 1, gamma = 1/L ...) hide scaling mistakes."""
-    cands = []
-    for k in range(1, (4 * n if n <= 4 else n) + 1):
-        rng = random.Random("c09/%d/%s/%d" % (seed, e["name"], k))
-        try:
-            cands.append(e["gen"](rng))
-        except Exception:
-            continue
-    if n > 4 or len(cands) <= n:
-        return cands[:n]
-
-    def nums(kw):
-        return [float(v) for v in kw.values() if isinstance(v, (int, float)) and not isinstance(v, bool)]
-
-    def score(kw, want_big):
-        v = nums(kw)
-        reals = [x for x in v if abs(x - round(x)) > 1e-9 or x > 1]
-        generic = sum(1 for x in v if x not in (0.0, 1.0))
-        big = any(x > 1.2 and abs(x - round(x)) > 1e-9 for x in v) or any(x >= 2 and k_ in ("L", "M", "beta", "mu", "LM", "Lg")
-                                                                         for k_, x in kw.items() if isinstance(x, (int, float)))
-        small = any(0 < x < 0.85 for x in v)
-        return generic + (2.0 if (big if want_big else small) else 0.0) + 0.01 * len(reals)
-    # greedy: each new setting is the candidate that adds most (parameter, side of 1) combinations not seen yet
-    def sides(kw):
-        out = set()
-        for k_, x in kw.items():
-            if isinstance(x, (int, float)) and not isinstance(x, bool) and k_ != "n":
-                out.add((k_, "above" if x > 1.15 else ("below" if x < 0.87 else "at")))
-        return out
-    out, seen = [], set()
-    for j in range(n):
-        rest = [c for c in cands if not any(c is o for o in out)]
-        best = max(rest, key=lambda c: 3.0 * len({s_ for s_ in sides(c) if s_[1] != "at"} - seen) + score(c, j % 2 == 0))
-        out.append(best)
-        seen |= sides(best)
-    return out
+from pv.ref.draws import generic_draws  # noqa: E402
 
 
 def _adv_from_state(state):
